@@ -20,13 +20,21 @@
    one content-type and one message-digest attribute. *)
 EXTENDS Integers, Sequences, FiniteSets, TLC
 
-CONSTANTS Variant
+CONSTANTS Variant,
+          ALens,     \* classes of the length of the signed-attribute set's content: "natural" (what the other dimensions give, below 127)
+                     \* or "nK": padded by one more attribute to exactly K bytes (K around the DER length-form boundaries 128 and 256)
+          Slim       \* TRUE: vary only the dimensions that shape the signed attributes (used with the nK classes)
 
-Shapes == [attrs: {"sorted", "unsorted"}, ncerts: 0..2, extraCert: BOOLEAN, crl: BOOLEAN, key: {"rsa", "ecdsa", "pss"},
+FullShapes == [attrs: {"sorted", "unsorted"}, ncerts: 0..2, extraCert: BOOLEAN, crl: BOOLEAN, key: {"rsa", "ecdsa", "pss"},
            nullParam: BOOLEAN, timeForm: {"utc", "gen", "none"}, multiAttr: BOOLEAN, nested: BOOLEAN,
            algs: {"one", "two-sorted", "two-unsorted"}, ber: {"der", "longlen", "indef"},
-           payload: {"text", "octetlike"}]   \* "octetlike": the content octets themselves happen to parse as one DER OCTET STRING (04 len ...);
+           payload: {"text", "octetlike"},   \* "octetlike": the content octets themselves happen to parse as one DER OCTET STRING (04 len ...);
                                              \* what is digested must still be exactly the octets that are emitted
+           alen: ALens]
+SlimShapes == [attrs: {"sorted", "unsorted"}, ncerts: {1}, extraCert: {FALSE}, crl: {FALSE}, key: {"rsa", "ecdsa", "pss"},
+           nullParam: {TRUE}, timeForm: {"utc", "gen", "none"}, multiAttr: {FALSE}, nested: {FALSE},   \* (with the multi-valued attribute the set is already past 128 bytes)
+           algs: {"one"}, ber: {"der"}, payload: {"text"}, alen: ALens]
+Shapes == IF Slim THEN SlimShapes ELSE FullShapes
 Ops == {"RoundTrip", "Detach", "Embed", "EmbedDetach", "Resign"}
 
 \* the parts of a SignedData value
@@ -42,6 +50,11 @@ Parsable(s) == s.ber = "der"
 \* relic's verifier must accept the token before it is embedded (ParseResponse sanity check, TimestampAndMarshal self
 \* check): the token has to carry the TSA's certificate (relic sets certReq). RSA-PSS tokens are accepted.
 SelfCheckOk(s) == s.ncerts >= 1
+\* what relic digests when it verifies (or builds) a signer info: the attributes as emitted, re-tagged SET OF, with the
+\* DER length that content has. Named deviation: a hand-written header that uses the short form for 128 bytes (80 is
+\* not a length) - builder and verifier agree with each other and with nobody else
+DigestForm(s) == IF Variant = "ShortFormAt128" /\ s.alen = "n128" THEN "other" ELSE "as-emitted"
+Accepts(s) == SelfCheckOk(s) /\ DigestForm(s) = "as-emitted"
 Has(s, p) == CASE p = "certs" -> s.ncerts > 0 \/ s.extraCert
                [] p = "crlTbs" -> s.crl
                [] p = "nestedToken" -> s.nested
@@ -78,7 +91,7 @@ Operate ==
             /\ part' = [p \in Parts |-> IF p = "econtent" THEN "gone" ELSE IF Has(shape, p) THEN Emit(p) ELSE "absent"]
             /\ outcome' = "detached" /\ UNCHANGED newAttrs
        [] op \in {"Embed", "EmbedDetach"} ->
-            IF ~SelfCheckOk(shape)
+            IF ~Accepts(shape)
             THEN outcome' = "refused" /\ UNCHANGED <<part, newAttrs>>
             ELSE /\ part' = [p \in Parts |-> IF Has(shape, p) THEN Emit(p) ELSE "absent"]   \* the token inside the attribute
                  /\ newAttrs' = IF Variant = "DoubleDigestAttr" THEN <<"contentType", "signingTime", "messageDigest", "messageDigest">>
@@ -113,6 +126,9 @@ MandatoryAttrsOnce ==
 \* refusing is allowed only for encodings the decoder cannot read or a token relic cannot verify
 RefuseOnlyWhenJustified ==
   outcome = "refused" => ~Parsable(shape) \/ (op \in {"Embed", "EmbedDetach"} /\ ~SelfCheckOk(shape))
+
+\* signed attributes are digested in exactly the encoding that is emitted
+DigestedAsEmitted == DigestForm(shape) = "as-emitted"
 
 Terminates == <>(phase = "done")
 =============================================================================
